@@ -766,6 +766,11 @@ theorem Att.step {s : St} (i : In) (a : Att s) : Att (step s i).1 := by
       · split
         · exact a.of4 (SameAtt.of_tables rfl rfl) rfl rfl rfl rfl
         · exact a
+  | viaLost addr port =>
+    simp only [TxV.TorState.step]
+    split
+    · exact a
+    · exact a.of4 (SameAtt.of_tables rfl rfl) rfl rfl rfl rfl
 
 /-! ## which circuits and streams are listed -/
 
